@@ -48,6 +48,8 @@ inductive Fault where
 
 abbrev M := Except Fault
 
+deriving instance DecidableEq for Except
+
 /-- how an operation ended: it returned `a`, or it unwound (`inDrop`: the panic came out of a
     `Drop::drop` of an element, not out of a closure / `Clone` / an argument check) -/
 inductive Exit (α : Type) where
